@@ -716,4 +716,75 @@ def parseText (G : Table) (src : Text) : PR Deriv :=
   | none => .fail
   | some toks => parseToks G toks
 
+/-! ### Histories: the specification is stateless
+
+`C2Profile.from_text` is specified as a pure function of the source; a profile object has no state beyond its
+`tree`.  The history model below lets the harness run several `from_text` / `as_text` steps inside one process
+(whitespace variants of one source in both orders, repeated sources, the tree of an object edited between two
+`as_text` calls) and demand, for every step, the answer of THAT step's source/tree alone. -/
+
+inductive HStep where
+  /-- `profile = C2Profile.from_text(src)`, then `profile.as_text()` -/
+  | parse (src : Text)
+  /-- `profile.as_text()` once more on the same object -/
+  | again
+  /-- `del profile.tree.children[k % len(children)]` (nothing when there are no children), then `as_text()` -/
+  | delete (k : Nat)
+  /-- `profile.tree = C2Profile.from_text(src).tree` on the SAME object, then `as_text()` -/
+  | setTree (src : Text)
+  deriving Repr
+
+inductive HAnswer where
+  /-- the parser raised -/
+  | err
+  /-- there is no profile object yet -/
+  | noProfile
+  /-- tokens of the step's source (for `parse`/`setTree`), the object's tree after the step, its reconstruction -/
+  | ans (srcToks : Option (List Text)) (tree : Tree) (printed : Option (List Tok))
+  deriving Repr
+
+def Forest.length : Forest → Nat
+  | .nil => 0
+  | .leaf _ _ r => r.length + 1
+  | .node _ _ r => r.length + 1
+
+def Forest.deleteNth : Nat → Forest → Forest
+  | _, .nil => .nil
+  | 0, .leaf _ _ r => r
+  | 0, .node _ _ r => r
+  | n + 1, .leaf t s r => .leaf t s (Forest.deleteNth n r)
+  | n + 1, .node l ks r => .node l ks (Forest.deleteNth n r)
+
+/-- one step: new state (the tree of the current profile object, if any) and the observable answer -/
+def hstep (G : Table) (st : Option Tree) : HStep → Option Tree × HAnswer
+  | .parse src =>
+    match parseText G src with
+    | .ok d => (some (toTree d), .ans (lexProfile G.words src) (toTree d) (printTree G (toTree d)))
+    | _ => (st, .err)
+  | .again =>
+    match st with
+    | none => (none, .noProfile)
+    | some t => (some t, .ans none t (printTree G t))
+  | .delete k =>
+    match st with
+    | none => (none, .noProfile)
+    | some t =>
+      let t' : Tree := if t.kids.length = 0 then t else ⟨t.label, t.kids.deleteNth (k % t.kids.length)⟩
+      (some t', .ans none t' (printTree G t'))
+  | .setTree src =>
+    match st with
+    | none => (none, .noProfile)
+    | some t =>
+      match parseText G src with
+      | .ok d => (some (toTree d), .ans (lexProfile G.words src) (toTree d) (printTree G (toTree d)))
+      | _ => (some t, .err)
+
+def runHistory (G : Table) : Option Tree → List HStep → List HAnswer
+  | _, [] => []
+  | st, h :: hs => (hstep G st h).2 :: runHistory G (hstep G st h).1 hs
+
+def finalState (G : Table) : Option Tree → List HStep → Option Tree
+  | st, [] => st
+  | st, h :: hs => finalState G (hstep G st h).1 hs
+
 end C10
